@@ -48,6 +48,7 @@ pub fn check_source(acc: &mut Acc, src: &str, lib: bool, incomplete: bool, what:
     let res = api::guarded(|| {
         let ix = tree::index(&tree)?;
         let t = tree::check_tiling(&tree, &ix, &text, !incomplete)?;
+        tree::check_try_locate(&ix)?;
         Ok::<_, String>((t, ix.nodes.iter().map(|n| n.kind.clone()).collect::<std::collections::BTreeSet<_>>()))
     });
     match res {
@@ -173,6 +174,21 @@ pub fn build(tier: Tier) -> Check<'static> {
             move |i, acc| {
                 let src = sp.get(i / 2);
                 let cls = check_source(acc, &src, false, i % 2 == 1, "token soup");
+                acc.class(cls);
+            },
+        ));
+    }
+    // part: reference-grammar sentences (every production alternative, every adjacent pair)
+    {
+        let sp = crate::props::c02::sentence_texts();
+        let n = sp.len();
+        c.parts.push(Part::new(
+            "grammar-sentences",
+            n * 2,
+            "every sentence of the C02 reference-grammar enumeration (rule variants + adjacent pairs), strict and incomplete",
+            move |i, acc| {
+                let src = sp.get(i / 2);
+                let cls = check_source(acc, &src, false, i % 2 == 1, "reference grammar sentence");
                 acc.class(cls);
             },
         ));
